@@ -403,7 +403,8 @@ impl World {
             } else if p.log.len() as u32 != ob.log_len {
                 fail = Some(("C01", "log-mismatch", format!("o{}: protected log has {} entries, shadow has {}", obj, p.log.len(), ob.log_len)));
             }
-            if fail.is_none() {
+            // (items of a pipe are scheduled by the pipe's poll job, whose position in the queue the harness cannot stamp)
+            if fail.is_none() && kind != Kind::PipeItem {
                 // C02: every op whose call returned before this one was invoked must have finished
                 for (aid, a) in i.ops.iter().enumerate() {
                     if aid != op && a.obj == obj && a.accepted && a.ret != 0 && a.ret < o.inv && !a.ended() && !a.cancelled && !a.busy && a.kind != Kind::Suspend && a.kind != Kind::Pipe && a.kind != Kind::PipeIn && a.kind != Kind::Attempt {
